@@ -514,6 +514,11 @@ package cache
 //@   abstract
 //@   nosafety all pre
 //@   assert at call (net/netip.Addr).Prefix#1: arg0 == lastret("(net/netip.Prefix).Addr") && arg1 == bits && bits >= 1 && prefixValid(clientPrefix)
+//@   # a scope LONGER than what the client announced is never probed: every candidate contains the client's whole
+//@   # announced prefix, so an entry scoped to a narrower subnet the client merely zero-extends into is never a hit
+//@   loop 1 invariant bits <= lastret("(net/netip.Prefix).Bits")
+//@   assert at call (net/netip.Addr).Prefix#1: arg1 <= lastret("(net/netip.Prefix).Bits") && calls("(net/netip.Prefix).Bits") == 1
+//@   assert at call (net/netip.Prefix).Bits#1: arg0 == clientPrefix
 //@   assert at call (net/netip.Prefix).Addr#1: arg0 == clientPrefix
 //@   assert at call (middleware/cache.CacheKey).Hash#1: arg0.Question == q && arg0.CD == cd && arg0.Scope == lastret("(net/netip.Addr).Prefix") && lastret("(net/netip.Addr).Prefix", 1) == nil
 //@   assert at return#2: result0 == lastret("(*middleware/cache.Store).LookupByKey") && lastret("(*middleware/cache.Store).LookupByKey", 1) && result1 == lastret("(middleware/cache.CacheKey).Hash") && result2 == lastret("(net/netip.Addr).Prefix")
